@@ -105,6 +105,10 @@ class C14(Check):
                 cfg["automatic"] = False
             if cfg["lmin"] >= 2:
                 cfg["version"] = 0
+            if r.random() < 0.25:      # other local grid families that run in this strategy here
+                cfg["grid"] = r.choice(ES.LOCAL_GRIDS[1:])
+                cfg["boundary"] = True
+                cfg["single_dim"] = False
         cfg.update(strategy=strategy, use_epoch=False, max_points=10 ** 6, estimator=r.choice(["keyed", "keyed", "real"]), clock_jumps=r.random() < 0.3)
         cfg["final"] = r.choice([20, 40, 70, 110, 160] if tier == "quick" else [40, 70, 110, 160, 250, 400])
         cfg["fault_weights"] = {f: r.choice([0, 1, 1, 2]) for f in FAULTS if f != "child_restore"}
@@ -182,7 +186,9 @@ class C14(Check):
         path = "mem://c14-%d" % k
         a, b = cfg["a"], cfg["b"]
         P = query_points(rk, a, b, 5)
-        interp = not (st == "extend_split" and not cfg["boundary"])   # __call__ raises there (known finding of C07)
+        # __call__ raises for extend-split without boundary points (known finding of C07) and is not supported on grids
+        # without points on the area boundaries (Gauss-Legendre); the restored-equals-saved clause then compares result and counts
+        interp = not (st == "extend_split" and (not cfg["boundary"] or cfg.get("grid", "TrapezoidalGrid") != "TrapezoidalGrid"))
         # queries run on deep copies: __call__ may evaluate the integrand at further points (it does for extend-split
         # version 2), which moves the point count and hence the stop of the continued run - the statement is about
         # stop / save / restore / continue, not about queries in between
